@@ -415,7 +415,7 @@ func c04RunPairs(tier string, cfg c04Cfg) fw.Result {
 	// two columns: plus the text tuples that collide under any "join the components with a middle" encoding
 	nUni := len(uni)
 	if cfg.Pairs == 2 {
-		for _, pr := range middlePairs() {
+		for _, pr := range collisionPairs() {
 			uni = append(uni, c04Tuple{pr[0][0], pr[0][1]}, c04Tuple{pr[1][0], pr[1][1]})
 		}
 	}
